@@ -887,7 +887,8 @@ check (translator `/verif/gen -area httpwire`); the functions the theorems above
 * `getBody` is the regenerated GetBody of the answer log (round 3);
 * `sharedPool` is the regenerated prepareClientPool: which `shared-client` sections get a pool, and of what size (round 4);
 * `decodeHeader` is the regenerated util.DecodeHeader (the `[key: value]` lines of the option and of uri / uripost files), which
-  moreover never panics on any string (round 4).
+  moreover never panics on any string (round 4);
+* `decodeAll` + `confHdr` are the regenerated loop of util.DecodeHTTPConfigHeaders: stop at the first bad string, ADD every pair (round 4).
 (The shape facts — where Setup / NewRequest arguments, the per-gun client, the keep-alive option and the factories'
 Target/TargetResolved come from — are pinned in `Pandora.Bridge.HttpWire` and compiled with this module.) -/
 theorem C09_regenerated_code_is_model :
@@ -914,14 +915,18 @@ theorem C09_regenerated_code_is_model :
     Gen.HttpWire.transportTags = transportTags ∧
     (∀ b, Gen.HttpWire.getBody b = getBody b) ∧
     (∀ enabled n, Gen.HttpWire.sharedPool enabled n = sharedPool enabled n) ∧
-    (∀ h, Gen.HttpWire.decodeHeader h = some (decodeHeader h)) :=
+    (∀ h, Gen.HttpWire.decodeHeader h = some (decodeHeader h)) ∧
+    (∀ strs, Bridge.HttpWire.runConfigHeaders Gen.HttpWire.configHeadersInit strs =
+      some (match decodeAll strs with
+        | .error e => .error e
+        | .ok kvs => .ok (confHdr kvs))) :=
   ⟨Bridge.HttpWire.enrich_cons, Bridge.HttpWire.shootRewrite_eq, Bridge.HttpWire.getHostWithoutPort_eq,
    fun d i l t => by rw [Bridge.HttpWire.preResolve_eq], Bridge.HttpWire.mergeUri_eq,
    Bridge.HttpWire.uripostMergeStep_eq, Bridge.HttpWire.mergeJson_eq, fun _ _ _ => rfl,
    Bridge.HttpWire.decodeRequestClose_eq, Bridge.HttpWire.http2NeedsSSL_eq, rfl,
    Bridge.HttpWire.newTransport_eq, Bridge.HttpWire.defaultTransportCfg_eq, Bridge.HttpWire.transportTags_eq,
    Bridge.HttpWire.getBody_eq, Bridge.HttpWire.sharedPool_eq,
-   Bridge.HttpWire.decodeHeader_eq⟩
+   Bridge.HttpWire.decodeHeader_eq, Bridge.HttpWire.configHeaders_eq⟩
 
 /-! ### the unrepaired tree -/
 
